@@ -132,98 +132,70 @@ def run(tier, config):
             else:
                 rep.add(key + "|unguarded", "C11:D1", False,
                         "%s is called outside the Try/Enforce arms of a GatherToggle match: a Skip-ped section would still be requested" % csuf.split("::")[-1], cn[1].get("at"))
-    # ---- D3 app-id check (value analysis on MIR)
-    an = K.analysis(c)
-    f = c.fn("gamedig::protocols::valve::protocol::get_response")
-    if f is None:
-        rep.add("gamedig::protocols::valve::protocol::get_response|app-id", "C11:D3", False, "get_response not found")
+    # ---- D3 app-id check, decided on the canonical term of the public valve query (sym.py): get_response is inlined there,
+    # so the rule sees the decision however it is spelled (flag variable, boolean expression, early returns)
+    from .. import sym as SY, tracespec as TS
+    import re as _re
+    vq = c.fn("gamedig::protocols::valve::protocol::query")
+    if vq is None:
+        rep.add("gamedig::protocols::valve::protocol::query|app-id", "C11:D3", False, "valve::query not found")
     else:
-        it = an.interp(f["path"])
-        b = Body(f)
-        bad = [(bi, s) for bi, s, kd, ops in Q.aggregates(f, "gamedig::errors::kind::GDErrorKind") if kd["variant"] == "BadGame"]
-        if not bad or it is None:
-            rep.add("gamedig::protocols::valve::protocol::get_response|app-id|site", "C11:D3", False, "no BadGame construction found in get_response")
-        for bi, s in bad:
-            st = it.state_before_term(bi)
-            # locals named is_specified_id / the check_app_id field of the settings argument (arg 3)
-            spec = [i for i, l in enumerate(b.locals) if l.get("name") == "is_specified_id"]
-            ok_spec = bool(spec) and st is not None and it.iv_of("_%d" % spec[0], st) == (0, 0)
-            chk = None
-            if st is not None:
-                for t, iv in st.iv.items():
-                    if t.endswith(".check_app_id") and iv == (1, 1):
-                        chk = t
-            rep.add("gamedig::protocols::valve::protocol::get_response|app-id|guard", "C11:D3", bool(ok_spec and chk),
-                    "BadGame is constructed only where is_specified_id == false and %s == true" % chk if (ok_spec and chk) else
-                    "BadGame must be dominated by check_app_id == true and is_specified_id == false (state: spec=%s chk=%s)" % (ok_spec, chk), s.get("at"))
-        # is_specified_id := true only under appid equality
-        spec = [i for i, l in enumerate(b.locals) if l.get("name") == "is_specified_id"]
-        n_true = 0
-        for (bi, si, rv, proj) in (b.defs().get(spec[0], []) if spec else []):
-            if rv[0] == "use" and rv[1][0] == "const" and rv[1][1].get("v") == 1:
-                n_true += 1
-                st = it.instates.get(bi) if it else None
-                eq = False
-                if st is not None:
-                    for (x, y), k in st.le.items():
-                        if k == 0 and x.endswith(".appid") and st.le.get((y, x)) == 0 and (".0" in y or "@1.0" in y or "appid" in y or y.startswith("_")):
-                            eq = True
-                rep.add("gamedig::protocols::valve::protocol::get_response|app-id|set-true#%d" % n_true, "C11:D3", eq,
-                        "is_specified_id = true is reached only with info.appid equal to an expected id" if eq else
-                        "is_specified_id is set to true without an equality between info.appid and an expected id on the path", None)
-        rep.add("gamedig::protocols::valve::protocol::get_response|app-id|assignments", "C11:D3", n_true == 2,
-                "%d assignments of true (first id, dedicated id)" % n_true)
-        # must-pass-through: no success return can skip the app-id decision
-        oks = [bi for bi, s_, kd, ops in Q.aggregates(f, "core::result::Result") if kd["variant"] == "Ok" and s_["lhs"] == [0, []]]
-        cmp_blocks = []
-        for bi, blk in enumerate(b.blocks):
-            for s_ in blk["stmts"]:
-                if s_["k"] == "assign" and s_["rv"][0] == "bin" and s_["rv"][1] == "Eq":
-                    r = b.render_rvalue(s_["rv"], 4, names=False)
-                    if ".appid" in r:
-                        cmp_blocks.append(bi)
-        heads = []
-        if cmp_blocks:
-            b0 = min(cmp_blocks)
-            for bi, blk in enumerate(b.blocks):
-                t_ = blk["term"]
-                if t_ and t_["k"] == "switch" and b.dominates(bi, b0):
-                    r = b.render_operand(t_["d"], 5, names=False)
-                    if re.match(r"^discr\(\(?[&*]*arg2\b", r):
-                        heads.append(bi)
-        if not oks or not cmp_blocks or not heads or not bad:
-            rep.add("gamedig::protocols::valve::protocol::get_response|app-id|pass-through", "C11:D3", False,
-                    "cannot locate the app-id decision (engine test %s, appid comparison %s, success returns %s)" % (heads, cmp_blocks, oks), f["span"])
+        units, g2 = TS.all_units(c)
+        sy = SY.Sym(c, lambda q: q in units, g2)
+        eff = sy.run_unit(vq)
+        pr = SY.Printer(sy)
+        order = []   # (position, kind, payload, ctx)
+
+        def walk(es, ctx):
+            for e in es:
+                k = e[0]
+                if k == "guard":
+                    fails = [x for x in e[2] if x[0] == "fail"]
+                    order.append(("guard", e, ctx, [pr.show(x[1]) for x in fails]))
+                    walk([x for x in e[2] if x[0] != "fail"], ctx + ["unless"])
+                elif k == "ret":
+                    order.append(("ret", e, ctx, None))
+                elif k == "fail":
+                    order.append(("fail", e, ctx, [pr.show(e[1])]))
+                elif k == "if":
+                    walk(e[2], ctx + ["if(%s)" % pr.show(e[1])]); walk(e[3], ctx + ["else(%s)" % pr.show(e[1])])
+                elif k == "match":
+                    for pat, g_, sub in e[2]:
+                        walk(sub, ctx + ["match(%s)=>%s" % (pr.show(e[1]), pat)])
+                elif k == "loop":
+                    walk(e[5], ctx + ["loop"])
+                elif k == "op":
+                    order.append(("op", e, ctx, sy.ops[e[1]].name))
+                # scopes are returns of inlined callees, not of the query: not descended into for `ret`
+        walk(eff, [])
+        bad = [(i_, o) for i_, o in enumerate(order) if o[0] in ("guard", "fail") and o[3] and any("BadGame" in x for x in o[3])]
+        base = "gamedig::protocols::valve::protocol::query|app-id"
+        if len(bad) != 1 or bad[0][1][0] != "guard":
+            rep.add(base + "|site", "C11:D3", False, "expected exactly one guarded BadGame failure in the valve query, found %d" % len(bad), vq["span"])
         else:
-            hcopy = list(heads)
-            head = min(hcopy, key=lambda x: len([y for y in hcopy if b.dominates(y, x)]))
-            not_dom = [x for x in oks if not b.dominates(head, x)]
-            # guard block: nearest switch dominating the BadGame construction
-            bg = bad[0][0]
-            guards = [bi for bi, blk in enumerate(b.blocks) if blk["term"] and blk["term"]["k"] == "switch" and b.dominates(bi, bg) and bi != bg]
-            gcopy = list(guards)
-            guards = sorted(gcopy, key=lambda x: -len([y for y in gcopy if b.dominates(y, x)]))
-            guard_chain = set(guards[:2])  # `!is_specified_id && check_app_id` is two switches
-            # from the first appid comparison, can a success return be reached without passing a guard switch?
-            seen = set()
-            st_ = [min(cmp_blocks)]
-            leak = None
-            while st_:
-                x = st_.pop()
-                if x in seen or x in guard_chain:
-                    continue
-                seen.add(x)
-                if x in oks:
-                    leak = x
-                    break
-                st_.extend(b.succ[x])
-            ok_pt = not not_dom and leak is None
-            rep.add("gamedig::protocols::valve::protocol::get_response|app-id|pass-through", "C11:D3", ok_pt,
-                    "every success return is dominated by the engine/app-id decision and, once an expected id is being compared, can only be reached through the BadGame guard" if ok_pt else
-                    ("a success return (block %s) is not dominated by the app-id decision: for some settings the check is skipped" % not_dom if not_dom else
-                     "a success return (block %s) is reachable from the app-id comparison without passing the BadGame guard" % leak), f["span"])
-        # BadGame is constructed nowhere else on the valve path
-        others = [(g, v) for (g, bi, v, at) in Q.enum_values(c, "gamedig::errors::kind::GDErrorKind") if v == "BadGame" and g["path"] != f["path"] and "tests" not in g["path"] and not g["path"].startswith("gamedig::errors")]
+            pos, (kind, e, ctx, _) = bad[0]
+            failcond = pr.show(sy.mk_not(e[1]))
+            m = _re.match(r"^\(Not\(\(\(Some\((?P<i>.+)\.appid\) Eq a1\.Source\.Some\[1\]\) Or \(a1\.Source\.Some\[0\] Eq (?P=i)\.appid\)\)\) And (?P<s>.+)\.check_app_id\)$", failcond)
+            rep.add(base + "|guard", "C11:D3", bool(m),
+                    "BadGame exactly when check_app_id and the reported app id is neither the expected id nor the dedicated-server id" if m else
+                    "BadGame is raised under %s - expected check_app_id And Not(info.appid is the expected id Or the dedicated id)" % failcond, e[3])
+            in_engine = any(x.startswith("match(a1)=>Engine::Source(Some(") for x in ctx)
+            rep.add(base + "|only-for-known-ids", "C11:D3", in_engine, "the comparison sits under Engine::Source(Some(ids)) (contexts: %s)" % ctx, e[3])
+            extra = [x for x in ctx if not x.startswith("match(a1)=>Engine::Source(Some(")]
+            rep.add(base + "|unconditional", "C11:D3", not extra,
+                    "the app-id decision is taken for every setting of the gather toggles" if not extra else
+                    "the app-id decision is only reached under %s: for the other settings the check is skipped" % extra[:2], e[3])
+            if m:
+                info_src = m.group("i")
+                settings_src = m.group("s")
+                rep.add(base + "|settings", "C11:D3", "a2" in settings_src, "check_app_id is read from the caller's gather settings (%s)" % settings_src, e[3], nontrivial=False)
+            # must-pass-through: no success return and no section request before the decision
+            early = [o for i_, o in enumerate(order[:pos]) if o[0] == "ret"]
+            sect = [o for i_, o in enumerate(order[:pos]) if o[0] == "op" and any(x in o[3] for x in ("get_server_players", "get_server_rules"))]
+            rep.add(base + "|pass-through", "C11:D3", not early and not sect,
+                    "no success return and no players/rules request precedes the app-id decision" if not early and not sect else
+                    "%d success return(s) / %d section request(s) can happen before the app-id decision: for some settings the check is skipped" % (len(early), len(sect)), e[3])
+        others = [(g, v) for (g, bi, v, at) in Q.enum_values(c, "gamedig::errors::kind::GDErrorKind") if v == "BadGame" and not g["path"].startswith("gamedig::protocols::valve::protocol::get_response") and "tests" not in g["path"] and not g["path"].startswith("gamedig::errors")]
         rep.add("BadGame|constructors", "C11:D3", not others, "BadGame constructed only in get_response" if not others else "BadGame also constructed in %s" % [Q.disp(g) for g, _ in others])
     # ---- D4 Unreal 2 sequencing
     uq = c.fn("gamedig::protocols::unreal2::protocol::{impl#0}::query")
